@@ -168,6 +168,9 @@ def run(ctx):
             ctx.sample({"block0": list(blk0)[:16], "events": [(e[0], list(e[1])[:12]) if e[0] == "P" else (e[0], e[1], list(e[2])[:6]) for e in evs[:5]]})
     res = ctx.coq_cases("hist", HEADER, exprs, shard=20)
     bad = [m for m, r in zip(meta, res) if r is not True]
+    if bad:
+        k = [j for j, r in enumerate(res) if r is not True][0]
+        ctx.extra["first_disagreeing_case"] = exprs[k][:4000]
     ctx.oblige("correspondence:partial_model", not bad, "first disagreements: %r" % (bad[:3],))
     ctx.assume += ["the consume() polling loop itself is exercised in C07; here the handler objects are driven exactly as consume()/dispatch do",
                    "a STATQ or truncated STATP sent by the spa is outside the property's quantifier (modelled as error branches only)"]
